@@ -24,7 +24,9 @@ META = {
     "rule": ("A: cases = (history, copy mode): a history is 8-30 random operations (scalar "
              "assignments incl. invalid ones, every list/dict/set mutator on List(Int), List(CInt), "
              "List(List(Int)), Dict(Str,Int), Dict(Str,List(Int)), Set(Int), untyped List/Dict/Any traits, "
-             "Instance graph edits incl. aliases, cycles and copy='ref'/'shallow' links, transient writes, "
+             "Instance graph edits incl. aliases, cycles and copy='ref'/'shallow' links, PrototypedFrom / "
+             "DelegatesTo traits declared before and after their delegate holder (override, delegated "
+             "write, del, delegate swap / removal), transient writes, "
              "one ReadOnly write, property reads, dynamic listeners) on a module-level class; copy modes = "
              "pickle protocols 0-5, copy.deepcopy, clone_traits(copy=None/'shallow'/'deep'); a second "
              "generation copies a battered copy again.  B: cases = (definition kind, round-trip mode) "
@@ -38,20 +40,22 @@ META = {
     "phases": [{"name": "main", "flavour": "P", "shards": 16},
                {"name": "defs", "flavour": "S", "shards": 16}],
     "gates": {
-        "quick": {"evaluations": 700000, "states": 600, "copies": 4000, "batteries_completed": 4000,
-                  "values_compared": 230000, "transient_checked": 15000,
-                  "transient_nondefault_in_original": 2500, "sharing_checked": 4000,
-                  "live_rejected": 60000, "live_accepted": 35000, "live_converted": 15000,
-                  "live_notify_probes": 45000, "live_notifications": 100000, "property_steps": 20000,
-                  "readonly_checked": 2000, "container_copies": 2000, "ref_identity_checked": 250,
+        "quick": {"evaluations": 550000, "states": 480, "copies": 3200, "batteries_completed": 3200,
+                  "values_compared": 180000, "transient_checked": 12000,
+                  "transient_nondefault_in_original": 2000, "sharing_checked": 3200,
+                  "live_rejected": 48000, "live_accepted": 27000, "live_converted": 12000,
+                  "live_notify_probes": 36000, "live_notifications": 80000, "property_steps": 16000,
+                  "readonly_checked": 1300, "container_copies": 1600, "ref_identity_checked": 200,
+                  "deferral_checked": 3500,
                   "def_kinds": 120, "def_roundtrips": 600, "def_roundtrips_sanitized": 300,
                   "def_validate_comparisons": 120000, "def_install_steps": 80000},
         "thorough": {"evaluations": 10000000, "states": 12000, "copies": 80000, "batteries_completed": 80000,
                      "values_compared": 5000000, "transient_checked": 300000,
                      "transient_nondefault_in_original": 50000, "sharing_checked": 80000,
-                     "live_rejected": 1200000, "live_accepted": 700000, "live_converted": 300000,
+                     "live_rejected": 1200000, "live_accepted": 650000, "live_converted": 300000,
                      "live_notify_probes": 900000, "live_notifications": 2000000, "property_steps": 400000,
-                     "readonly_checked": 40000, "container_copies": 45000, "ref_identity_checked": 5000,
+                     "readonly_checked": 30000, "container_copies": 45000, "ref_identity_checked": 4500,
+                     "deferral_checked": 80000,
                      "def_kinds": 120, "def_roundtrips": 600, "def_roundtrips_sanitized": 300,
                      "def_validate_comparisons": 120000, "def_install_steps": 80000},
     },
